@@ -805,3 +805,37 @@ CASES += [
                 for (clause_lit, weight) in self.clauses[clause_idx].iter() {
                     if !base.model.is_set(clause_lit.label()) {"""),
 ]
+
+CASES += [
+    dict(name="fs-and-lst-exits-on-true", file=BB, rule="FS", props=["C01", "C05"], expect="and_lst:cur_bdd<-and:early-exit",
+         old="""            cur_bdd = self.and(cur_bdd, itm);
+        }""",
+         new="""            cur_bdd = self.and(cur_bdd, itm);
+            if cur_bdd.is_true() {
+                break;
+            }
+        }"""),
+    dict(name="fs-and-lst-exits-on-false-ok", file=BB, rule="FS", props=["C01", "C05"], expect=None,
+         old="""            cur_bdd = self.and(cur_bdd, itm);
+        }""",
+         new="""            cur_bdd = self.and(cur_bdd, itm);
+            if cur_bdd.is_false() {
+                break;
+            }
+        }"""),
+    dict(name="rh-grow-rehomes-with-old-capacity", file=BT, rule="RH", props=["C02", "C04"], expect="grow:rehome",
+         old="""        let new_sz = (self.cap + 1).next_power_of_two();
+        self.cap = new_sz;
+        let old = mem::replace(&mut self.tbl, vec![HashTableElement::default(); new_sz]);
+        let c = self.cap;""",
+         new="""        let c = self.cap;
+        let new_sz = (c + 1).next_power_of_two();
+        self.cap = new_sz;
+        let old = mem::replace(&mut self.tbl, vec![HashTableElement::default(); new_sz]);"""),
+    dict(name="rh-grow-old-capacity-only-for-size-ok", file=BT, rule="RH", props=["C02", "C04"], expect=None,
+         old="""        let new_sz = (self.cap + 1).next_power_of_two();
+        self.cap = new_sz;""",
+         new="""        let old_cap = self.cap;
+        let new_sz = (old_cap + 1).next_power_of_two();
+        self.cap = new_sz;"""),
+]
